@@ -21,7 +21,8 @@
 (***************************************************************************)
 EXTENDS Naturals, Sequences, FiniteSets, TLC
 CONSTANT CwdVariant,         \* "code" | "nofinally" (a sanity mutant of the model: the restore is not in a finally)
-         StatGuard           \* FALSE = the pinned tree; TRUE = after the repair proposed in tools/design.d/C19.md (os.stat at :629 guarded)
+         StatGuard,          \* FALSE = the pinned tree; TRUE = after the repair a58026a (os.stat at :629 guarded)
+         CcStopsAtExisting   \* FALSE = the pinned tree; TRUE = after the repair 93328c4 (the "cc" walk stops at the nearest ancestor that EXISTS)
 
 (***************************************************************************)
 (* (a.1) the mode language                                                 *)
@@ -117,7 +118,10 @@ IsDirA(F)  == F.kind = "dir"                     \* os.path.isdir
 FOK(F)     == F.st = "ok"                        \* os.access(path, F_OK)
 Res(r, at) == [res |-> r, at |-> at]
 \* :599-604  pdir = realpath(abs_path/..); with "cc" walk up until a directory is found (the root always is one)
-AlgDirFound(m, F) == F.pdir \/ m.cc
+\* pinned tree: `while not os.path.isdir(pdir)` walks past a regular file that is in the way and always ends at a directory
+\* (the root is one); since 93328c4 `while not os.path.lexists(pdir)`: it ends at the nearest ancestor that exists, and
+\* :605 then demands that it is a directory
+AlgDirFound(m, F) == F.pdir \/ (m.cc /\ (CcStopsAtExisting => F.nedir))
 AlgDirW(m, F)     == IF F.pdir THEN F.pw ELSE F.ndw
 AlgCheck(m, F) ==
   IF F.stdio THEN Res("accept", 596)                                                                  \* :596 not self._std_io
